@@ -43,7 +43,10 @@ class GenContingent(GenProblem):
     problem is a ContingentProblem with per-type defaults, per-fluent defaults, explicit values, hidden literals with
     unknown / oneof / or constraints, sensing actions."""
 
-    def __init__(self, rng, hand=None):  # noqa: super().__init__ deliberately not called (it builds a plain Problem)
+    def __init__(self, rng, hand=None, world=None, hide=None, name="g"):  # noqa: super().__init__ deliberately not called (it builds a plain Problem)
+        """world: a World (shared Environment, types, objects and Fluent OBJECTS) when the problem is one step of a
+        HISTORY of problems; hide: callback bool_atoms -> the atoms to hide at this step (history driver).  With
+        world=None the random stream is exactly the one of the stand-alone problems."""
         import unified_planning as up
         from unified_planning.environment import Environment
         from unified_planning.model import Fluent, Object, InstantaneousAction, Variable
@@ -54,7 +57,8 @@ class GenContingent(GenProblem):
                       conditional=True, incdec=True, quantifiers=True, obj_fluents=True, num_params=True,
                       max_actions=2, metrics=False, static_rel=False)
         k = self.k
-        self.env = Environment()
+        self.world = world
+        self.env = Environment() if world is None else world.env
         env = self.env
         tm = env.type_manager
         self.em = env.expression_manager
@@ -66,12 +70,15 @@ class GenContingent(GenProblem):
         B = tm.BoolType()
         self.T0 = tm.UserType("T0")
         self.T1 = tm.UserType("T1", self.T0)
-        names = rng.sample(NAME_POOL_OBJ, 4)
-        n0, n1 = rng.randint(1, 2), rng.randint(1, 2)
-        self.objs0 = [Object(names[i], self.T0, env) for i in range(n0)]
-        self.objs1 = [Object(names[2 + i], self.T1, env) for i in range(n1)]
-        allo = self.objs0 + self.objs1
-        rng.shuffle(allo)
+        if world is None:
+            names = rng.sample(NAME_POOL_OBJ, 4)
+            n0, n1 = rng.randint(1, 2), rng.randint(1, 2)
+            self.objs0 = [Object(names[i], self.T0, env) for i in range(n0)]
+            self.objs1 = [Object(names[2 + i], self.T1, env) for i in range(n1)]
+            allo = self.objs0 + self.objs1
+            rng.shuffle(allo)
+        else:
+            self.objs0, self.objs1, allo = list(world.objs0), list(world.objs1), list(world.allo)
         # ---------------- per-type defaults (ContingentProblem(initial_defaults=...))
         I03, Im12, I, R0, R = tm.IntType(0, 3), tm.IntType(-1, 2), tm.IntType(), tm.RealType(Fraction(-1, 2), 3), tm.RealType()
         self.tdefaults = OrderedDict()
@@ -87,18 +94,22 @@ class GenContingent(GenProblem):
             self.tdefaults[self.T0] = rng.choice(allo)
         if rng.random() < 0.3:
             self.tdefaults[self.T1] = rng.choice(self.objs1)
-        self.problem = ContingentProblem("g", env, initial_defaults=dict(self.tdefaults))
+        self.problem = ContingentProblem(name, env, initial_defaults=dict(self.tdefaults))
         p = self.problem
         p.add_objects(allo)
         # ---------------- fluents with per-fluent defaults
         self.fluents = []
         self.fdefaults = OrderedDict()
-        cands = [("b0", B, []), ("b1", B, [self.T0]), ("b2", B, [self.T1]), ("b3", B, []),
-                 ("i0", I03, []), ("i1", Im12, [self.T0]), ("i2", I, []), ("r0", R0, []), ("r1", R, [self.T1]),
-                 ("o0", self.T0, []), ("o1", self.T1, [self.T0])]
-        chosen = cands[:2] + rng.sample(cands[2:], rng.randint(1, 4))
-        for name, ty, sig in chosen:
-            f = Fluent(name, ty, OrderedDict(("x%d" % i, t) for i, t in enumerate(sig)), env)
+        cands = fluent_candidates(tm, self.T0, self.T1)
+        if world is None:
+            chosen = cands[:2] + rng.sample(cands[2:], rng.randint(1, 4))
+        else:
+            chosen = world.chosen
+        for fname, ty, sig in chosen:
+            if world is None:
+                f = Fluent(fname, ty, OrderedDict(("x%d" % i, t) for i, t in enumerate(sig)), env)
+            else:
+                f = world.fluent(fname)       # the SAME Fluent object in every problem of the history
             give = rng.random() < 0.45
             if not ty.is_bool_type() and ty not in self.tdefaults:
                 give = True      # every non-Boolean fluent has a declared value
@@ -116,8 +127,11 @@ class GenContingent(GenProblem):
         bool_atoms = [em.FluentExp(f, tuple(em.ObjectExp(o) for o in args)) for f, args in self.ground_fluents()
                       if f.type.is_bool_type()]
         self.constraints = []
-        if rng.random() < 0.9:
-            atoms = rng.sample(bool_atoms, min(len(bool_atoms), rng.randint(1, 4)))
+        if hide is not None or rng.random() < 0.9:
+            if hide is None:
+                atoms = rng.sample(bool_atoms, min(len(bool_atoms), rng.randint(1, 4)))
+            else:
+                atoms = hide(bool_atoms)
             for _ in range(6):
                 plan = []
                 for _ in range(rng.randint(1, 3)):
@@ -131,6 +145,10 @@ class GenContingent(GenProblem):
                 # mostly satisfiable constraint sets; an unsatisfiable one is kept now and then (the constructor raises)
                 if plan_satisfiable(plan, atoms) or rng.random() < 0.08:
                     break
+            if hide is not None:
+                # a step of a history hides (nearly) all the atoms the driver asked for: the ones no oneof/or uses are unknown
+                used = set(lit_parts(x)[1] for _, lits in plan for x in lits)
+                plan += [("unknown", [x]) for x in atoms if x not in used and rng.random() < 0.85]
             for kind, lits in plan:
                 if kind == "unknown":
                     p.add_unknown_initial_constraint(lits[0])
@@ -234,6 +252,103 @@ def plan_satisfiable(plan, atoms):
                for kind, lits in plan):
             return True
     return False
+
+
+def fluent_candidates(tm, T0, T1):
+    B = tm.BoolType()
+    I03, Im12, I, R0, R = tm.IntType(0, 3), tm.IntType(-1, 2), tm.IntType(), tm.RealType(Fraction(-1, 2), 3), tm.RealType()
+    return [("b0", B, []), ("b1", B, [T0]), ("b2", B, [T1]), ("b3", B, []),
+            ("i0", I03, []), ("i1", Im12, [T0]), ("i2", I, []), ("r0", R0, []), ("r1", R, [T1]),
+            ("o0", T0, []), ("o1", T1, [T0])]
+
+
+# ---------------------------------------------------------------------------------------------- histories
+class World:
+    """One Environment with the types, objects and Fluent OBJECTS that every problem of a history is built from (a
+    benchmark generator / an experiment script builds its problems like this, in the global environment).  `like`: a
+    second world with the very same names in ANOTHER Environment."""
+
+    def __init__(self, rng, like=None):
+        from unified_planning.environment import Environment
+        from unified_planning.model import Fluent, Object
+        self.env = Environment()
+        tm = self.env.type_manager
+        self.T0 = tm.UserType("T0")
+        self.T1 = tm.UserType("T1", self.T0)
+        if like is None:
+            names = rng.sample(NAME_POOL_OBJ, 4)
+            n0, n1 = rng.randint(1, 2), rng.randint(1, 2)
+            self.onames0, self.onames1 = names[:n0], names[2:2 + n1]
+            order = list(range(n0 + n1))
+            rng.shuffle(order)
+            self.order = order
+            cands = fluent_candidates(tm, self.T0, self.T1)
+            # all four Boolean fluents (5..8 ground atoms that can be hidden) + some of the others
+            self.chosen_names = [c[0] for c in cands[:4]] + [c[0] for c in rng.sample(cands[4:], rng.randint(1, 2))]
+        else:
+            self.onames0, self.onames1, self.order, self.chosen_names = like.onames0, like.onames1, like.order, like.chosen_names
+        self.objs0 = [Object(x, self.T0, self.env) for x in self.onames0]
+        self.objs1 = [Object(x, self.T1, self.env) for x in self.onames1]
+        both = self.objs0 + self.objs1
+        self.allo = [both[i] for i in self.order]
+        cands = dict((c[0], c) for c in fluent_candidates(tm, self.T0, self.T1))
+        self.chosen = [cands[x] for x in self.chosen_names]
+        self._fluents = dict((name, Fluent(name, ty, OrderedDict(("x%d" % i, t) for i, t in enumerate(sig)), self.env))
+                             for name, ty, sig in self.chosen)
+        self.hidden_now = []      # atoms (FNodes of this world's Environment) hidden by the latest problem
+        self.hidden_ever = set()
+
+    def fluent(self, name):
+        return self._fluents[name]
+
+
+class GenHistory:
+    """A HISTORY: a sequence of contingent problems created one after the other in one process over a shared World
+    (same Environment, same Fluent objects, hence the same fluent expressions), for each of which environments are
+    created before the next problem is.  Between consecutive problems the set of hidden atoms shrinks AND grows: some
+    hidden atom becomes known (it drops out of every constraint; it may get an explicit value), some atom that was not
+    hidden appears under the new constraints, the rest stays hidden.  Everything else (defaults, explicit values,
+    constraints, actions, goals) is drawn afresh per problem by GenContingent.  With two worlds, the steps alternate at
+    random between two Environments that declare the same names."""
+
+    def __init__(self, rng, hid, length, two_worlds):
+        self.rng = rng
+        self.hid = hid
+        self.worlds = [World(rng)]
+        if two_worlds:
+            self.worlds.append(World(rng, like=self.worlds[0]))
+        self.steps = []           # (gen, world index, hidden atoms as strings)
+        for i in range(length):
+            wi = rng.randrange(len(self.worlds))
+            w = self.worlds[wi]
+            gen = GenContingent(rng, world=w, hide=lambda atoms, w=w: self.next_hidden(w, atoms), name="h%d_%d" % (hid, i))
+            now = sorted(set(lit_parts(x)[1] for x in gen.problem.hidden_fluents), key=str)
+            w.hidden_now = now
+            w.hidden_ever.update(now)
+            gen.label = "history %d step %d" % (hid, i)
+            gen.history = self
+            gen.step = i
+            self.steps.append((gen, wi, [str(x) for x in now]))
+
+    def next_hidden(self, w, atoms):
+        rng = self.rng
+        prev = [x for x in w.hidden_now if x in atoms]
+        if not prev:
+            return rng.sample(atoms, min(len(atoms), rng.randint(2, 4)))
+        # shrink: at least one hidden atom becomes known (unless only one was hidden) ...
+        keep = rng.sample(prev, rng.randint(1, max(1, len(prev) - 1)))
+        # ... and grow: 1-2 atoms that were not hidden in the previous problem (never hidden before, when there are any)
+        rest = [x for x in atoms if x not in prev]
+        fresh = [x for x in rest if x not in w.hidden_ever]
+        pool = fresh if fresh and rng.random() < 0.7 else rest
+        new = rng.sample(pool, min(len(pool), rng.randint(1, 2)))
+        out = (keep + new)[:5]
+        rng.shuffle(out)
+        return out
+
+    def describe(self, upto):
+        return [{"step": i, "problem": g.problem.name, "environment": "E%d" % wi, "hidden_atoms": hs}
+                for i, (g, wi, hs) in enumerate(self.steps[:upto + 1])]
 
 
 def hand_problems():
@@ -383,6 +498,12 @@ def run_case(gen, ser, seed, seq_rng, maxlen):
         env = SimulatedExecutionEnvironment(p)
     except IndexError:
         rec["raise"] = 1
+        # ---- oracle (e): "picks a hidden initial state": no state is chosen only when no assignment of the hidden atoms
+        # satisfies the constraints (plain enumeration, independent of pysmt and of the Coq model)
+        hatoms = sorted(set(lit_parts(x)[1] for x in p.hidden_fluents), key=str)
+        cplan = [("oneof", list(c)) for c in p.oneof_constraints] + [("or", list(c)) for c in p.or_constraints]
+        if len(hatoms) <= 12 and plan_satisfiable(cplan, hatoms):
+            rec["py"].append("no-hidden-state-chosen:IndexError although the oneof/or constraints are satisfiable")
         return rec
     except UPProblemDefinitionError:
         rec["raise"] = 2
@@ -522,6 +643,20 @@ def inherited_sim_deviation(gen, rec, ser):
     return False
 
 
+def history_payload(gen, rec):
+    """for a problem that is a step of a history: the problems (and their hidden atoms) for which environments were created
+    earlier in the process, in order"""
+    if not hasattr(gen, "history"):
+        return {}
+    h = gen.history
+    desc = h.describe(gen.step)
+    if rec.get("revisit"):
+        desc = h.describe(len(h.steps)) + [dict(desc[-1], again=True)]
+    return {"history": desc,
+            "history_note": "environments were created for these problems, in this order, in one process (steps of one history "
+                            "share Fluent objects per Environment E<i>); the failing environment belongs to the last one listed"}
+
+
 # ---------------------------------------------------------------------------------------------- the check
 def run(ctx):
     warnings.simplefilter("ignore")
@@ -537,9 +672,14 @@ def run(ctx):
              "sensing_with_effects": 0, "with_invariant": 0, "distinct_hidden_states": 0, "inherited_c01_grounding_conflict": 0}
     nontrivial = set()
     from unified_planning.model.contingent import SensingAction
-    for pi, gen in enumerate(gens):
+    sers = []
+
+    def add_problem(gen):
+        """problem-level part: Gallina definition, fluents_defaults / initial_value observation, input statistics"""
+        pi = len(sers)
         p = gen.problem
         ser = SerProblem(p)
+        sers.append(ser)
         pre.append("Definition P%d : cproblem := %s." % (pi, render_cproblem(gen, ser)))
         n = ser.names
         # problem-level observation: fluents_defaults and initial_value of the real problem
@@ -564,10 +704,17 @@ def run(ctx):
         stats["explicit_on_hidden"] += sum(1 for a in atoms if a in p.explicit_initial_values)
         stats["sensing_with_effects"] += sum(1 for a in p.actions if isinstance(a, SensingAction) and a.effects)
         stats["with_invariant"] += 1 if p.state_invariants else 0
+        return pi
+
+    def add_cases(pi, gen, nseeds, revisit=False):
+        """environments for problem pi, one per seed, created NOW (in this order within the process)"""
+        p, ser = gen.problem, sers[pi]
+        atoms = set(lit_parts(x)[1] for x in p.hidden_fluents)
         seen_hidden = set()
         for si in range(nseeds):
             seed = rng.randrange(1 << 30)
             rec = run_case(gen, ser, seed, rng, maxlen)
+            rec["revisit"] = revisit
             stats["cases"] += 1
             stats["constructor_ok"] += rec["raise"] == 0
             stats["constructor_no_model"] += rec["raise"] == 1
@@ -589,12 +736,45 @@ def run(ctx):
                                            [(st["action"].name, [str(x) for x in st["args"]]) for st in rec["steps"]]]))
             if rec["raise"] == 3:
                 ctx.fail("impl-exception", "SimulatedExecutionEnvironment(problem) raised %s" % rec["exc"],
-                         ["c35", "constructor-raises", rec["exc"].split(":")[1]],
-                         {"problem_text": str(p), "case": rec_json(gen, ser, rec), "theorem_or_corr": "corr:C35:env_init"}, True)
+                         ["c35", "constructor-raises", rec["exc"].split(":")[1]] + (["in-history"] if hasattr(gen, "history") else []),
+                         dict({"problem_text": str(p), "case": rec_json(gen, ser, rec), "theorem_or_corr": "corr:C35:env_init"},
+                              **history_payload(gen, rec)), True)
                 continue
             cases.append("(P%d, %s)" % (pi, ser_case(ser, rec)))
             owners.append((pi, gen, ser, rec))
         stats["distinct_hidden_states"] += len(seen_hidden)
+
+    for gen in gens:
+        add_cases(add_problem(gen), gen, nseeds)
+    # ---- histories: problems over a shared pool of fluent objects, created and run one after the other in THIS process;
+    # the hidden set shrinks and grows between consecutive problems; an earlier problem is run again at the end.  Every
+    # environment is judged exactly like a stand-alone one (the state it chose depends on nothing but its problem).
+    nhist, hlen, hseeds = (7, 4, 4) if ctx.quick else (40, 5, 5)
+    stats.update({"histories": nhist, "history_problems": 0, "history_two_environments": 0, "history_cases": 0,
+                  "history_transitions": 0, "history_atoms_became_known": 0, "history_atoms_newly_hidden": 0,
+                  "history_atoms_stayed_hidden": 0})
+    for hi in range(nhist):
+        two = hi % 3 == 2
+        hist = GenHistory(rng, hi, hlen + (2 if two else 0), two)
+        stats["history_two_environments"] += two
+        before = stats["cases"]
+        pis = []
+        last = {}
+        for gen, wi, hs in hist.steps:
+            gens.append(gen)
+            pis.append(add_problem(gen))
+            stats["history_problems"] += 1
+            if wi in last:
+                stats["history_transitions"] += 1
+                stats["history_atoms_became_known"] += len(set(last[wi]) - set(hs))
+                stats["history_atoms_newly_hidden"] += len(set(hs) - set(last[wi]))
+                stats["history_atoms_stayed_hidden"] += len(set(hs) & set(last[wi]))
+            last[wi] = hs
+            add_cases(pis[-1], gen, hseeds)
+        back = rng.randrange(len(pis) - 1)
+        add_cases(pis[back], hist.steps[back][0], 2, revisit=True)
+        stats["history_cases"] += stats["cases"] - before
+    stats["problems"] = len(gens)
     preamble = "\n".join(pre) + "\n"
     shard = max(60, (len(cases) + 1) // 2) if ctx.quick else max(200, (len(cases) + 3) // 4)
     pcodes = ctx.coq_codes(pcases, "fun pc => pcode (fst pc) (snd pc)", imports=IMPORTS, preamble=preamble, shard=1000, label="problems")
@@ -626,6 +806,10 @@ def run(ctx):
             tags.append("observations")
         if code & 32 or any(x.startswith("goal") for x in rec["py"]):
             tags.append("is-goal-reached")
+        if any(x.startswith("no-hidden-state-chosen") for x in rec["py"]):
+            tags.append("constructor-raises-on-satisfiable-constraints")
+        if hasattr(gen, "history"):
+            tags.append("in-history")
         if rec["exc"]:
             tags += ["raises", rec["exc"].split(":")[0] + ":" + rec["exc"].split(":")[1]]
         prop_fails = py_bad or bool(code & 3)
@@ -633,9 +817,10 @@ def run(ctx):
                  "SimulatedExecutionEnvironment %s (code %d; python oracle: %s; %s)" % (
                      "violates the property" if prop_fails else "differs from the model only (corr:C35:init_state/env_apply/env_obs)",
                      code, rec["py"][:2], rec["exc"]),
-                 tags, {"problem_text": str(gen.problem), "case": rec_json(gen, ser, rec), "code_bits": code, "problem_index": pi,
-                        "label": getattr(gen, "label", "generated"), "names": ser.names.table(),
-                        "theorem_or_corr": "corr:C35 / oracles declared_init, constraints_hold, UPSequentialSimulator"}, prop_fails)
+                 tags, dict({"problem_text": str(gen.problem), "case": rec_json(gen, ser, rec), "code_bits": code, "problem_index": pi,
+                             "label": getattr(gen, "label", "generated"), "names": ser.names.table(),
+                             "theorem_or_corr": "corr:C35 / oracles declared_init, constraints_hold, UPSequentialSimulator"},
+                            **history_payload(gen, rec)), prop_fails)
     if not ok_proofs:
         ctx.proof_broken()
     samples = [rec_json(g, s, r) for (_, g, s, r) in owners[:2]]
@@ -645,7 +830,10 @@ def run(ctx):
         "rule": "5 hand-written corner problems + generated contingent problems (C01 grammar actions, per-type / per-fluent / explicit "
                 "initial values, 0-4 hidden Boolean ground fluents under unknown/oneof/or constraints with negated literals, sensing "
                 "actions with parameterised observed fluents of every type and sometimes effects, sometimes a state invariant) x random "
-                "seeds x random action sequences of length 1..6; one case per (problem, seed, sequence); non-trivial = the constructor "
+                "seeds x random action sequences of length 1..6; + HISTORIES: sequences of 4-7 such problems built in one "
+                "Environment (a third of them alternating between two Environments with the same names) over the same Fluent "
+                "objects, environments created problem after problem in this process, the set of hidden atoms shrinking and "
+                "growing between consecutive problems, an earlier problem run again at the end; one case per (problem, seed, sequence); non-trivial = the constructor "
                 "raised (no model / invariant) or at least one action was applied; distinct by (problem, initial state, sequence)",
         "samples": samples,
         "distribution": stats,
